@@ -210,13 +210,13 @@ theorem run_of_cont (i : Inst) (hwf : wf i = true) (hm : Metric i) : ∀ (as : L
         rcases hcanon.1 with h | h
         · exact absurd rfl h
         · exact h
-      have hmask : mask i s 0 = true := by simp [mask, hcur]
+      have hmask : mask i s 0 = true := by simp [mask_def, hcur]
       have hr := hroutes [] (r1 :: rs1) (by simp [routes, h1])
       obtain ⟨s', hrun, hvis⟩ := ih (step i s 0) hrange'
         (by
           intro j hj hmem
           have : j ≠ 0 := by omega
-          simp only [step, upd_apply, this, if_false]
+          simp only [step_def, upd_apply, this, if_false]
           exact hunv j hj (List.mem_cons_of_mem _ hmem))
         hcount' hcanon.2
         (by
@@ -230,7 +230,7 @@ theorem run_of_cont (i : Inst) (hwf : wf i = true) (hm : Metric i) : ∀ (as : L
       refine ⟨s', Run.cons (by simp [env]) hmask hrun, ?_⟩
       intro j
       rw [hvis j]
-      simp only [step, upd_apply, List.mem_cons]
+      simp only [step_def, upd_apply, List.mem_cons]
       by_cases hj : j = 0 <;> simp [hj]
     · have hr := hroutes (a :: r1) rs1 (by simp [routes, h0, h1])
       have hcont := hr.1 (by simp)
@@ -239,7 +239,7 @@ theorem run_of_cont (i : Inst) (hwf : wf i = true) (hm : Metric i) : ∀ (as : L
       have hr1 : ∀ b ∈ r1, b ≤ i.n := fun b hb =>
         hrange' b (mem_of_mem_routes as r1 (by rw [h1]; simp) b hb)
       have hcv := canVisit_of_cont hwf hm h0 ha hr1 hv hcont
-      have hmask : mask i s a = true := by simp [mask, h0, hcv]
+      have hmask : mask i s a = true := by simp [mask_def, h0, hcv]
       obtain ⟨s', hrun, hvis⟩ := ih (step i s a) hrange'
         (by
           intro j hj hmem
@@ -249,7 +249,7 @@ theorem run_of_cont (i : Inst) (hwf : wf i = true) (hm : Metric i) : ∀ (as : L
             rw [List.count_cons_self] at c1
             have c2 := List.count_pos_iff.mpr hmem
             omega
-          simp only [step, upd_apply, hja, if_false]
+          simp only [step_def, upd_apply, hja, if_false]
           exact hunv j hj (List.mem_cons_of_mem _ hmem))
         hcount' hcanon.2
         (by
@@ -262,7 +262,7 @@ theorem run_of_cont (i : Inst) (hwf : wf i = true) (hm : Metric i) : ∀ (as : L
       refine ⟨s', Run.cons (by simp only [env]; omega) hmask hrun, ?_⟩
       intro j
       rw [hvis j]
-      simp only [step, upd_apply, List.mem_cons]
+      simp only [step_def, upd_apply, List.mem_cons]
       by_cases hj : j = a <;> simp [hj]
 
 end Rl4co.Mtvrp
